@@ -12,8 +12,9 @@ instance : MonadEnv (StateM Environment) := ⟨get, modify⟩
 
 unsafe def auditMain (args : List String) : IO UInt32 := do
   initSearchPath (← findSysroot)
+  enableInitializersExecution
   let mods := args.map fun s => s.toName
-  let env ← importModules (mods.toArray.map fun m => { module := m }) {} (trustLevel := 1024) 
+  let env ← importModules (mods.toArray.map fun m => { module := m }) {} (trustLevel := 1024) (loadExts := true) 
   let mut bad : UInt32 := 0
   for m in mods do
     match env.getModuleIdx? m with
